@@ -108,6 +108,35 @@ func detWorkload(t *sim.Tape) (ops []detOp, desc string) {
 		}
 		return dump.Err(err) + " " + dump.Object(d)
 	}})
+	// the same bytes read many times in a row: a result that changes after the
+	// n-th read in a process (state carried from call to call) shows up here
+	ops = append(ops, detOp{"ReadCMap x40 (same bytes)", func() string {
+		var sb strings.Builder
+		for i := 0; i < 40; i++ {
+			d, err := postscript.ReadCMap(bytes.NewReader(cmapFile))
+			r := dump.Err(err)
+			if d != nil {
+				r += " " + dump.Object(d)
+			}
+			if i == 0 {
+				sb.WriteString(r)
+			} else {
+				sb.WriteString(" " + digest(r))
+			}
+		}
+		return sb.String()
+	}})
+	if len(fontFiles) > 0 {
+		ff := fontFiles[0]
+		ops = append(ops, detOp{"type1.Read x12 (same bytes)", func() string {
+			var sb strings.Builder
+			for i := 0; i < 12; i++ {
+				g, err := type1.Read(bytes.NewReader(ff))
+				sb.WriteString(" " + digest(dump.Err(err)+dump.Font(g)))
+			}
+			return sb.String()
+		}})
+	}
 	ops = append(ops, detOp{"ReadCMap(multi)", func() string {
 		d, err := postscript.ReadCMap(bytes.NewReader(cmapFile))
 		if d == nil {
